@@ -84,6 +84,21 @@ def check_case(case, ctx):
     ref_out = runs[(POISONS[0], True)]
     if not isinstance(ref_out, dict):
         return [f"slice(fformat='return') returned {type(ref_out).__name__}"]
+    # history: one object flattening a second and third time (serial and pool) returns what a fresh object returns
+    for serial in (True, False):
+        try:
+            with poisoned_empty(POISONS[0]):
+                m = qcall(Mandoline, "src", fields=list(req), limit_level=limit, serial=serial, verbose=0)
+                qcall(m.slice, fformat="return")
+                qcall(m.slice, fformat="return")
+                again = qcall(m.slice, fformat="return")
+            for name in out_names + (["grid_level"] if do_grid else []) + ["x", "y"]:
+                a, b = np.asarray(ref_out.get(name)), np.asarray(again.get(name))
+                if a.shape != b.shape or not refread.same_bits(a.astype("<f8"), b.astype("<f8")):
+                    v.append(f"{name}: the third flattening by one Mandoline object (serial={serial}) differs from a fresh object's")
+                    break
+        except Exception as e:
+            v.append(f"re-using one Mandoline object (serial={serial}) raised {type(e).__name__}: {e}")
     cov = plot.covering(L)
     lmap = plot.level_map(L)
     if case.get("cli"):
